@@ -12,6 +12,11 @@ pub use crate::systematic_constants::{
 };
 
 pub use crate::octet::verif_tables::{oct_exp, oct_log, octet_mul, octet_mul_hi, octet_mul_low};
+pub use crate::octets::verif_kernels as kernels;
+pub use crate::octets::{
+    BinaryOctetVec, add_assign, fused_addassign_mul_scalar, fused_addassign_mul_scalar_binary,
+    mulassign_scalar,
+};
 
 /// RFC 6330 4.3 parameter derivation (crate-private in normal builds).
 pub fn derive_parameters(
